@@ -86,6 +86,7 @@ def setting_cases(draw, k):
 
 _SERVER = [None]
 _ADDR = {}
+SPEC_TYPE = {sp['name'].lower(): sp['type'] for sp in SPECS}
 
 
 def _start_server():
@@ -117,8 +118,15 @@ def client_op(op, fragment):
         d.update(method='read', elements=op['count'])
     elif svc == 'write_tag':
         d.update(method='write', data=list(op['values']), elements=op['count'], tag_type=rc.tcode(op['type']))
+    elif svc == 'get_attr' and op.get('via_code'):
+        # the same service spelled as a generic service-code operation (payload pre-rendered by the client); data_size makes
+        # the operation eligible for bundling
+        d.update(method='service_code', code=0x0E, data_size=64)
     elif svc == 'get_attr':
         d.update(method='get_attribute_single')
+    elif svc == 'set_attr' and op.get('via_code'):
+        ttype = spec[0]['type']
+        d.update(method='service_code', code=0x10, data=list(op['values']), elements=len(op['values']), tag_type=rc.tcode(ttype), data_size=4)
     elif svc == 'set_attr':
         ttype = spec[0]['type']
         d.update(method='set_attribute_single', data=list(op['values']), elements=len(op['values']), tag_type=rc.tcode(ttype))
